@@ -63,7 +63,7 @@ impl Stream for Permutations
 	}
 	fn count(&self, tier: Tier) -> u64
 	{
-		tier.pick(600, 15_000)
+		tier.pick(1500, 15_000)
 	}
 	fn choice_len(&self) -> usize
 	{
@@ -465,7 +465,7 @@ impl Stream for Graphs
 	}
 	fn count(&self, tier: Tier) -> u64
 	{
-		tier.pick(2000, 60_000)
+		tier.pick(6000, 60_000)
 	}
 	fn choice_len(&self) -> usize
 	{
@@ -825,7 +825,7 @@ impl Stream for IllFormed
 	}
 	fn count(&self, tier: Tier) -> u64
 	{
-		tier.pick(1500, 40_000)
+		tier.pick(5000, 40_000)
 	}
 	fn choice_len(&self) -> usize
 	{
